@@ -62,7 +62,10 @@ def c03_string_target : Prop :=
 
 /-- C02, port graphs, on the complement of the known-finding signature: a connected pattern
 with a single root (its constraint vector mentions no root index ≥ 1) that embeds into the host
-is reported with its root image. (C01's port-graph target is the converse with `embedsPG`.) -/
+is reported with its root image. (C01's port-graph target is the converse with `embedsPG`.)
+NOTE: as literally stated (arbitrary `PortGraph` values) this is FALSE — `c02_pg_target_false` in
+`Props/C01PG.lean`: on a host whose input port is linked twice `port_link` is asymmetric; with the
+well-formedness hypotheses `LinksOK` it is the theorem `c02_pg_holds_wf`. -/
 def c02_pg_target : Prop :=
   ∀ (g : PortGraph) (root : Nat) (cs : List PGCons) (h : PortGraph) (fuel : Nat) (out : List PGMap),
     pgConstraints g root = some cs → pgSigMultiRoot cs = false → pgConnected g = true →
